@@ -560,7 +560,7 @@ Section Store.
     2:{ unfold res_out. destruct (extract_solution p1); (split; [|discriminate]); [|exact Hup].
         apply full_ok_upd_ps; [exact Hup|apply Hwq]. }
     destruct tr2 as [|[| |p s ans|] tr3]; try (split; [exact Hup|discriminate]).
-    destruct (get p q) as [prio|]; [|split; [exact Hup|discriminate]].
+    destruct (get p q) as [[prio qs]|]; [|split; [exact Hup|discriminate]].
     destruct (negb (Z.eqb prio mx)); [split; [exact Hup|discriminate]|].
     set (st2 := upd_ps st1 _).
     assert (H2 : full_ok st2) by (apply full_ok_upd_ps; [exact Hup|apply Hwq]).
